@@ -136,8 +136,15 @@ class Rule_LT09(BaseRule):
                 sp.is_type("comment"),
                 start_seg=selects.get(),
                 stop_seg=newlines.get(),
+                # NOTE: A modifier (e.g. DISTINCT) may sit between SELECT and
+                # the comment. If we stopped looking there, the target would be
+                # moved onto the end of the line *behind* the inline comment,
+                # i.e. into it.
                 loop_while=sp.or_(
-                    sp.is_type("comment"), sp.is_type("whitespace"), sp.is_meta()
+                    sp.is_type("comment"),
+                    sp.is_type("whitespace"),
+                    sp.is_type("select_clause_modifier"),
+                    sp.is_meta(),
                 ),
             )
             if comment_after_select:
